@@ -27,6 +27,7 @@ type recSub struct {
 	real *aggsender.GenericSubscriberImpl[types.EpochEvent]
 	ch   <-chan types.EpochEvent
 	ch2  <-chan types.EpochEvent // a second subscription under the SAME name (two components of the node naming themselves alike)
+	late <-chan types.EpochEvent // a component that subscribes only after the first announcement has gone out
 }
 
 func (r *recSub) Subscribe(string) <-chan types.EpochEvent { return nil }
@@ -34,6 +35,9 @@ func (r *recSub) Publish(e types.EpochEvent) {
 	r.evs = append(r.evs, e)
 	if r.real != nil {
 		r.real.Publish(e)
+		if len(r.evs) == 1 {
+			r.late = r.real.Subscribe("verif-late") // from now on it must get every announcement
+		}
 	}
 }
 
@@ -41,6 +45,40 @@ func (r *recSub) Publish(e types.EpochEvent) {
 func (s *epState) drain(r *Run) {
 	if s.sub == nil || s.sub.ch == nil || len(s.sub.evs) == 0 {
 		return
+	}
+	if s.sub.late != nil {
+		// the late subscriber: everything after the first announcement
+		want := s.sub.evs[1:]
+		wait := 2 * time.Second
+		if s.lateFailed {
+			wait = time.Millisecond
+		}
+		timeout := time.After(wait)
+		n := 0
+		left := map[uint64]int{}
+		for _, e := range want {
+			left[e.Epoch]++
+		}
+	lateLoop:
+		for n < len(want) {
+			select {
+			case e := <-s.sub.late: // (the publisher hands each announcement to a goroutine of its own: no order is promised)
+				left[e.Epoch]--
+				n++
+			case <-timeout:
+				break lateLoop
+			}
+		}
+		r.Evals++
+		bad := n != len(want)
+		for _, k := range left {
+			bad = bad || k != 0
+		}
+		if bad {
+			s.lateFailed = true
+			r.Fail(fmt.Sprintf("a component that subscribed to the default publisher after the first announcement received %d of the %d announcements made since", n, len(want)), append([]string{}, s.lines...))
+		}
+		s.sub.late = nil
 	}
 	if s.sub.ch2 != nil {
 		// the second subscription first (with a short patience once something has already failed)
